@@ -348,6 +348,10 @@ func runCheck(prop, tier, repo, verif string, verbose, noReplay bool, evOut stri
 		assumptions = append(assumptions, "assumed contract (not verified): "+e+" — "+specSummary(P.spec.Funcs[e]))
 	}
 	for _, ax := range P.spec.Axioms {
+		if strings.HasPrefix(ax.Name, "lemma ") {
+			// not an assumption: discharged as obligation lemma#lemma[...] in the check of its property
+			continue
+		}
 		assumptions = append(assumptions, "axiom: "+ax.Text)
 	}
 	for _, n := range sortStrings(notes) {
